@@ -378,7 +378,7 @@ Section S.
   Proof.
     intros G. unfold close_element. eapply Os_bind; [apply element_name_id_same|]. intros [st1 nid] Hsame. cbn [fst] in Hsame.
     pose proof (same_tree_inv _ _ _ Hsame G) as G1. destruct Hsame as (S1 & S2 & S3).
-    destruct (current_is_element st1); [|exact I]. destruct (N.eqb _ _); [|exact I].
+    destruct (current_is_element st1); [|exact I]. match goal with |- Os _ (if ?c then _ else _) => destruct c end; [|exact I].
     eapply Os_weaken; [apply (pop_node_sound n0 st1 true G1)|]. intros r [H1 H2]. split; [exact H1|congruence].
   Qed.
 
